@@ -18,7 +18,7 @@ CHECKS = {
          "five history-level trigger predicates are known findings (V3+ modification, compact without listfile, compact on a stale view, block-table growth past the slack, rename of an encrypted file): histories in which one of them holds are reported under it and not checked further"),
  "C07": ("exploration", "rebuild sweep source configuration x target version x overrides x verify/skip filters with independent re-read of source and target, summary arithmetic and compare_archives agreement", "reference re-read oracle (set/bytes comparison) + summary-count monitor", "§6 C07",
          "a rebuild returning Err is allowed and only tallied; sources without listfile list nothing"),
- "C13": ("exploration", "generated M2 models / skins / anim objects (29 sections each empty/one/many, extreme floats, long names) x 5 versions: write->parse projection equality, byte-identical rewrite, same-version and cross-version conversion, independent (count,offset) walker", "reference-model monitor (object before write) + independent offset walker", "§6 C13",
+ "C13": ("exploration", "generated M2 models / skins / anim objects (29 sections each empty/one/many, extreme floats, long names) x 5 versions: write->parse projection equality, byte-identical rewrite, parse -> empty one list -> write -> parse, lists longer than the parsers' pre-allocation caps, same-version and cross-version conversion, independent (count,offset) walker", "reference-model monitor (object before write) + independent offset walker", "§6 C13",
          "projection exclusions are listed in evidence; nine writer/parser behaviours are known findings reported under risk=<predicate>"),
  "C15": ("exploration", "generated WMO roots and groups (every list empty/one/many, aliasing string tables, extreme floats) x 5 versions x 25 conversion pairs: parse projections, byte-identical second write, header counts and string offsets via an independent chunk walker; WmoEditor add/remove histories judged by a tally; write_group into streams that hold data in front of / behind the writer", "reference-model monitor + independent chunk walker", "§6 C15",
          "exclusions listed in evidence; derived/unmodelled fields are not compared"),
@@ -30,7 +30,7 @@ CHECKS = {
          "archives without listfile are outside the workload; ties touched by set_priority may resolve either way"),
  "C11": ("exploration", "hostile entry/listfile names (grammar over .., separators, absolute, drive, UNC, long, unicode) planted by an independent MPQ writer, extracted by the CLI in 12 configurations, incl. names no archive holds (asked for / listed without an entry) and files already standing where a hostile name would lead; two observers of the whole neighbourhood: before/after tree snapshot and strace write-class syscall checker; benign files must still be extracted bit-identically", "file-system snapshot monitor + syscall trace checker (strace) at the process boundary", "§6 C11",
          "names that would leave /verif/scratch if honoured are never generated (root-anchored names are anchored inside the sandbox)"),
- "C14": ("exploration", "generated ADT builder inputs (isolated features per version, covering arrays over root and MCNK optional chunks, invalid inputs) x versions: build->bytes->parse equality, 1-4 parse->rebuild rounds stable and non-growing, independent chunk walker for framing, MHDR and MCIN entries", "reference-model monitor (builder input) + independent chunk walker", "§6 C14",
+ "C14": ("exploration", "generated ADT builder inputs (isolated features per version, covering arrays over root and MCNK optional chunks, invalid inputs) x versions: build->bytes->parse equality, 1-4 parse->rebuild rounds stable and non-growing, both reference layouts (MCRF / MCRD+MCRW), dry water tables, independent chunk walker for framing, MHDR and MCIN entries", "reference-model monitor (builder input) + independent chunk walker", "§6 C14",
          "exclusions listed in evidence (detected-version label, serializer-computed fields, neutral MTXF, MCIN size convention)"),
  "C19": ("exploration", "model-based single-thread histories over all 30 exported functions with stale/forged/null handles and canary buffers, scripted probes (replace / rename under an open handle, close under failing writes via RLIMIT_FSIZE, names beyond ASCII across the 259-byte find-record limit); threaded runs with call/return logs checked offline (per-handle linearisation of the cursor, no success after close, unique ids); ASan and an overflow-checks build over the same histories, TSan over threaded runs and a Miri slice (thorough)", "handle-table model + canaries + offline linearizability/ordering checker over call logs; AddressSanitizer, ThreadSanitizer, Miri", "§6 C19",
          "seek semantics beyond either end not compared; re-entrant callbacks not driven; calls that cannot return on this tree are probed separately on a helper thread"),
@@ -38,12 +38,12 @@ CHECKS = {
          "a panic exit counts as non-zero but is reported as panic-exit; names avoid listfile syntax and option-like prefixes; known upstream findings (PKWare, bomb ratio) kept out of the workload"),
  "C09": ("exploration", "all nine parallel interfaces x thread counts {1,2,3,7,16,32,default} x batch sizes x request shapes (empty, duplicates incl. interleaved, 999..5200 names, missing names at every kind of position, skip-errors on/off) compared slot by slot with a sequential baseline (fresh handle, fresh thread when a used thread disagrees), each configuration repeated under seeded delays and background CPU load; task-event hook yields completion orders and thread assignments (distinct schedules counted, no-diversity reported); ThreadSanitizer slice (thorough)", "per-slot equality with sequential reads; task-event trace hook (schedule diversity measured); ThreadSanitizer", "§6 C09",
          "no control over the OS scheduler: diversity is induced and measured; TSan reports inside crossbeam-epoch reclamation (fences TSan does not model) are suppressed and counted"),
- "C10": ("fault_enumeration", "byte corruption at enumerated offsets of every protected region (file data, sector offset/CRC tables, attributes, V4 header and tables, signature) of archives carrying each kind of integrity metadata, plus paired corruptions (checksum zeroed + data flipped, attribute forged to match); verifier per kind as the statement names it; sign/verify/bit-flip sweep of the weak-signature functions", "fault enumeration (every k-th / every offset) with a detection oracle: error or invalid status, or content bit-identical", "§6 C10",
+ "C10": ("fault_enumeration", "byte corruption at enumerated offsets of every protected region (file data, sector offset/CRC tables, attributes, V4 header and tables, signature) of archives carrying each kind of integrity metadata (single-unit files well inside / one byte short of / exactly one sector), plus paired corruptions (checksum zeroed + data flipped, attribute forged to match); verifier per kind as the statement names it; sign/verify/bit-flip sweep of the weak-signature functions", "fault enumeration (every k-th / every offset) with a detection oracle: error or invalid status, or content bit-identical", "§6 C10",
          "a crash while reading a corrupted archive is tallied (C05's clause) but not judged here; multi-sector sector-checksum verification is a known finding (never compared)"),
  "C12": ("fault_enumeration", "every state-changing syscall of build/compact (V1-V4, dest absent/present/symlink/.tmp-named) and of the C API's SFileCreateArchive is killed or failed (ENOSPC, EIO) with strace inject, plus two-fault sequences and RLIMIT_FSIZE short-write sweeps; a separate process judges the destination path afterwards (old | absent | complete new archive)", "syscall-level fault injection (strace) + post-mortem file-system oracle", "§6 C12",
          "process death and I/O errors only, not power loss; faults are confirmed to have fired inside the marker window from each run's own trace"),
- "C18": ("exploration", "generated WDT/WDL definitions x versions round trip against a plain model with an independent chunk walker, all version pairs converted, and the coordinate pair enumerated for all 4096 tiles (corner, centre, range)", "reference-model monitor + independent chunk walker; exhaustive 64x64 enumeration for the coordinate clause", "§6 C18",
-         "reader's version guess is not stored in the file and is not compared; definitions stay within what each version's format carries"),
+ "C18": ("exploration", "generated WDT/WDL definitions x versions round trip against a plain model with an independent chunk walker, all version pairs converted, files loaded with the auto-detecting WDL parser saved as the version they report, and the coordinate pair enumerated for all 4096 tiles (corner, centre, range)", "reference-model monitor + independent chunk walker; exhaustive 64x64 enumeration for the coordinate clause", "§6 C18",
+         "reader's version guess is not stored in the file and is compared only through what a save under that label writes; definitions stay within what each version's format carries"),
 }
 NOT_YET = {}
 for i in range(1, 21):
